@@ -108,3 +108,92 @@ package common
 //@        !inLoc(scope.SubScopes[k].Loc.StartLine, scope.SubScopes[k].Loc.StartColumn, scope.SubScopes[k].Loc.EndLine, scope.SubScopes[k].Loc.EndColumn, line, column))
 //@   loop 0 decreases len(scope.SubScopes) - rangeindex
 //@ end
+
+//@ typeinv VarInfoList: forall(k, 0, len(self.VarVec), self.VarVec[k] != nil)
+//@ typeinv ScopeInfo: nonnilvals(self.LocVarMap)
+
+// ---- C05: visibility of a local declaration at a use position ----
+// Lua: a local is visible after its declaration, not inside its own initialiser; "local function f" sees itself.
+// The declaration range of a "local function" lies inside the function expression's range.
+//@ spec selfFunc(v *VarInfo) bool = typeis(v.ReferExp, "*ast.FuncDefExp")
+//@      && locContains(as(v.ReferExp, "*ast.FuncDefExp").Loc.StartLine, as(v.ReferExp, "*ast.FuncDefExp").Loc.StartColumn,
+//@                     as(v.ReferExp, "*ast.FuncDefExp").Loc.EndLine, as(v.ReferExp, "*ast.FuncDefExp").Loc.EndColumn,
+//@                     v.Loc.StartLine, v.Loc.StartColumn, v.Loc.EndLine, v.Loc.EndColumn)
+//@ spec inInitFunc(v *VarInfo, sl int, sc int, el int, ec int) bool = typeis(v.ReferExp, "*ast.FuncDefExp")
+//@      && locContains(as(v.ReferExp, "*ast.FuncDefExp").Loc.StartLine, as(v.ReferExp, "*ast.FuncDefExp").Loc.StartColumn,
+//@                     as(v.ReferExp, "*ast.FuncDefExp").Loc.EndLine, as(v.ReferExp, "*ast.FuncDefExp").Loc.EndColumn, sl, sc, el, ec)
+//@ spec inInitName(v *VarInfo, sl int, sc int, el int, ec int) bool = typeis(v.ReferExp, "*ast.NameExp")
+//@      && locContains(as(v.ReferExp, "*ast.NameExp").Loc.StartLine, as(v.ReferExp, "*ast.NameExp").Loc.StartColumn,
+//@                     as(v.ReferExp, "*ast.NameExp").Loc.EndLine, as(v.ReferExp, "*ast.NameExp").Loc.EndColumn, sl, sc, el, ec)
+//@ spec inInitCall(v *VarInfo, sl int, sc int, el int, ec int) bool = typeis(v.ReferExp, "*ast.FuncCallExp")
+//@      && locContains(as(v.ReferExp, "*ast.FuncCallExp").Loc.StartLine, as(v.ReferExp, "*ast.FuncCallExp").Loc.StartColumn,
+//@                     as(v.ReferExp, "*ast.FuncCallExp").Loc.EndLine, as(v.ReferExp, "*ast.FuncCallExp").Loc.EndColumn, sl, sc, el, ec)
+//@ spec visible(v *VarInfo, sl int, sc int, el int, ec int) bool = locBefore(v.Loc.StartLine, v.Loc.StartColumn, sl, sc)
+//@      && (selfFunc(v) || !(inInitFunc(v, sl, sc, el, ec) || inInitName(v, sl, sc, el, ec) || inInitCall(v, sl, sc, el, ec)))
+
+//@ func (*VarInfo).IsCorrectPosition
+//@   props C05
+//@   sweep C01
+//@   ensures[is-lua-visibility] result <==> visible(varInfo, loc.StartLine, loc.StartColumn, loc.EndLine, loc.EndColumn)
+//@   ensures[not-visible-in-own-initialiser-of-any-kind] typeis(varInfo.ReferExp, "*ast.BinopExp")
+//@        && locContains(as(varInfo.ReferExp, "*ast.BinopExp").Loc.StartLine, as(varInfo.ReferExp, "*ast.BinopExp").Loc.StartColumn,
+//@                       as(varInfo.ReferExp, "*ast.BinopExp").Loc.EndLine, as(varInfo.ReferExp, "*ast.BinopExp").Loc.EndColumn,
+//@                       loc.StartLine, loc.StartColumn, loc.EndLine, loc.EndColumn) ==> !result
+//@ end
+
+// FindLocVar: the nearest enclosing scope that has a visible declaration of the name wins; inside it the LAST one (shadowing).
+//@ func (*ScopeInfo).FindLocVar
+//@   props C05
+//@   sweep C01
+//@   ensures[found-is-visible] result1 ==> result0 != nil && visible(result0, loc.StartLine, loc.StartColumn, loc.EndLine, loc.EndColumn)
+//@   ensures[last-visible-in-nearest-scope-wins] scope.LocVarMap[name] != nil ==>
+//@        forall(k, 0, len(scope.LocVarMap[name].VarVec),
+//@            visible(scope.LocVarMap[name].VarVec[k], loc.StartLine, loc.StartColumn, loc.EndLine, loc.EndColumn)
+//@            && forall(j, k + 1, len(scope.LocVarMap[name].VarVec), !visible(scope.LocVarMap[name].VarVec[j], loc.StartLine, loc.StartColumn, loc.EndLine, loc.EndColumn))
+//@            ==> result1 && result0 == scope.LocVarMap[name].VarVec[k])
+//@   ensures[nothing-visible-and-no-parent] scope.Parent == nil && (scope.LocVarMap[name] == nil ||
+//@        forall(k, 0, len(scope.LocVarMap[name].VarVec), !visible(scope.LocVarMap[name].VarVec[k], loc.StartLine, loc.StartColumn, loc.EndLine, loc.EndColumn)))
+//@        ==> !result1
+//@   loop 0 invariant i >= -1 && i < len(locInfoList.VarVec) && locInfoList == scope.LocVarMap[name] && locInfoList != nil
+//@        && forall(j, i + 1, len(locInfoList.VarVec), !visible(locInfoList.VarVec[j], loc.StartLine, loc.StartColumn, loc.EndLine, loc.EndColumn))
+//@   loop 0 decreases i + 1
+//@ end
+
+// ---- C14: completion of local names ----
+//@ func (*CompleteCache).ExistStr
+//@   props C14
+//@   sweep C01
+//@   pure
+//@ end
+
+// GetCompleteVar offers, for each name, the LAST declaration of the nearest enclosing scope that is
+// declared at or before the cursor, and never a declaration that comes later; an inner scope's name is
+// not overwritten by an outer one (the cache is consulted first).
+//@ func (*ScopeInfo).GetCompleteVar
+//@   props C14
+//@   sweep C01
+//@   requires cache != nil && cache.existMap != nil && completeVar != nil
+//@   at call InsertCompleteVar#0 before assert[not-declared-after-cursor] locBefore(locVar.Loc.StartLine, locVar.Loc.StartColumn, loc.StartLine, loc.StartColumn)
+//@   at call InsertCompleteVar#0 before assert[last-declaration-before-cursor] forall(j, index + 1, len(locInfoList.VarVec),
+//@        !locBefore(locInfoList.VarVec[j].Loc.StartLine, locInfoList.VarVec[j].Loc.StartColumn, loc.StartLine, loc.StartColumn))
+//@   at call InsertCompleteVar#0 before assert[inner-scope-shadows-outer] !has(cache.existMap, strName)
+//@   at call InsertCompleteVar#0 before assert[offers-the-declaration-itself] locVar == locInfoList.VarVec[index]
+//@   loop for:index>=0 invariant index >= -1 && index < len(locInfoList.VarVec) && !has(cache.existMap, strName)
+//@        && forall(j, index + 1, len(locInfoList.VarVec),
+//@            !locBefore(locInfoList.VarVec[j].Loc.StartLine, locInfoList.VarVec[j].Loc.StartColumn, loc.StartLine, loc.StartColumn))
+//@   loop for:index>=0 decreases index + 1
+//@ end
+
+// The functions that build the scope tree establish the declared type invariants of ScopeInfo / VarInfoList.
+//@ func CreateScopeInfo
+//@   sweep C01
+//@ end
+
+//@ func (*ScopeInfo).InsertLocalVar
+//@   sweep C01
+//@   requires locVar != nil
+//@ end
+
+//@ func (*ScopeInfo).AddLocVar
+//@   sweep C01
+//@ end
